@@ -74,6 +74,11 @@ func kindOf(t types.Type) kind {
 	if isNamed(t, "time", "Time") {
 		return kTime
 	}
+	if isNamed(t, "github.com/jrhy/mast", "Mast") {
+		// a mast.Mast value is modelled as a reference to an immutable abstract
+		// snapshot (finite map); mutation replaces the snapshot id
+		return kRef
+	}
 	switch u := t.Underlying().(type) {
 	case *types.Basic:
 		switch {
